@@ -29,8 +29,9 @@ PROP = dict(
         "the hand-written summaries of the five exceptional sites (Model/ParSites.v) are read off the code by hand; their variables are pinned by the fact-base equality",
     ],
     assumptions=[
-        "race freedom of the task-manager sites is proved for runs in which no record raises an error; with an error the unsynchronised read in GoroutineTaskManager.HasError races (refuted, known finding race-haserror)",
-        "the loader theorem excludes the progress counter pos and the reader-error/cancellation/panic paths (refuted for pos, known finding race-loader-pos-err)",
+        "the task-manager template as it was shipped raced on the error slot as soon as a record raised an error (C13_task_manager_always_race_free_refuted is kept as the record of it); the code repaired by /repo f6b3a60 reads the slot under the mutex and is race free whatever the records do (C13_task_manager_locked_drf) - the fact base extracted from the current source must show the locked read",
+        "the loaders as shipped raced on the progress counter pos (C13_loader_pos_race_refuted, kept as the record); the order of tests repaired by /repo d9a59ee is proved race free on scaled-down instances by computing happens-before (C13_loader_small_fixed_race_free) and, without pos, for every number of rows (C13_loader_partial); cancellation/panic paths of the loaders are only exercised by the race detector",
+        "process-wide state reached from built-in functions (RAND generator, regular-expression / datetime-format caches) is not in the fact base: it is exercised by the race-detector workload \"functions\" only (found and repaired: race-rand, /repo 1c1468e)",
     ],
     level_text="Partial proof: Coq theorems (Properties/C13.v) about access summaries in a model of Go's happens-before (program order, go, WaitGroup.Wait, channels, mutex locksets): in a fork/join execution the races are exactly the conflicting pairs of two different workers (C13_fork_join_race_free / C13_fork_join_race); workers that split the records by RecordRange and whose accesses to different records never conflict are race free for EVERY record count and EVERY number of goroutines (C13_drf_by_ranges, from C12's ranges_partition; C13_own_index_discipline; C13_drf_mutex); the GoroutineTaskManager template is race free on error-free runs (C13_task_manager_drf); a decidable syntactic discipline on the extracted fact base implies race freedom (C13_discipline_sound) and every one of the 49 extracted goroutine bodies is covered by it or by a hand summary (C13_expected_sites_classified, C13_sites_drf, 14 named site_*_drf, site_cross_join_drf, site_analyze_partitions_drf, site_lateral_join_drf, C13_loader_partial). Refuted with witnesses: the unsynchronised read in HasError (C13_haserror_race for every site/size once a record fails; C13_task_manager_always_race_free_refuted), pos shared by the loader goroutines (C13_loader_pos_race_refuted, two rows suffice), signalReceived (C13_signal_race_refuted). For the repairs proposed in hooks/fix_*.patch the full statements are proved (C13_task_manager_locked_drf, C13_discipline_sound_locked, C13_signal_fixed_race_free; scaled-down loader instances decided by computing happens-before). A fourth race found by the detector runs - the field-index cache of outer records shared by the goroutines of a correlated subquery (crashes with concurrent map writes) - was repaired in /repo (d44f076); the model follows the repaired code (site_outer_cache_per_goroutine_drf) and C13_shared_outer_cache_race records why. Tie to the code: a go/ast translator re-extracts, on every run, for every go statement / Run closure / EvaluateSequentially closure / task-manager method the shared access paths that are assigned, how they are indexed and under which mutex; Coq checks (vm_compute) that this equals the fact base the summaries were written for; and a race-detector build of the harness drives every site (up to 20 000 rows, CPU 2-16, loads of 3000-record files, errors half-way, cancellation, a signal) and requires the reported racing pairs to be exactly the refuted sites.",
     level_note="Trusted: Coq kernel + vm_compute; the happens-before model (Go memory model is not itself formalised); the translator's syntactic criteria (no types, no alias analysis); the hand summaries of 5 exceptional sites; the race detector, which is dynamic and sees only schedules that occur. The theorems are about summaries, not about the Go code.",
